@@ -243,6 +243,12 @@ def _single_sweep(acc, shard, nshards, seed, tier):
         for ws in [" ", "\t", "\n ", "\x00", "\x7f", "\x85"]:
             variants.append((b, ws + b + ws, "whitespace"))
             variants.append((b, b[:9] + ws.strip(" ") + b[9:] if ws.strip(" ") else b, "control-chars"))
+    # whitespace / control characters around a URL from which a redirection is inferred (the join of a relative target needs the protocol)
+    for b in ["http://site.com/login?id=7&next=/rel/path", "https://h.com/r?redirect_to=%2Fnews", "http://site.com/out?url=http%3A%2F%2Ftarget.org%2Fp", "https://x.cdn.ampproject.org/c/s/example.com/a"]:
+        for pad in [" ", "\t", "\u00a0", "\u2003", "\u3000", "\u2028", "\u205f", "\x00", "\x1f", "\x7f", "\x9f"]:
+            variants.append((b, pad + b, "whitespace" if pad.isspace() else "control-chars"))
+            variants.append((b, b + pad, "whitespace" if pad.isspace() else "control-chars"))
+            variants.append((b, pad + " " + b + pad, "whitespace" if pad.isspace() else "control-chars"))
     # spelling of percent-escapes where a heuristic reads the text: the marker of a routing fragment, an index page, an AMP suffix, a tracking key
     for b, v in [("https://lemonde.fr/#/path/is/here", "https://lemonde.fr/#%2Fpath/is/here"), ("https://lemonde.fr/#/path/is/here", "https://lemonde.fr/#%2fpath%2Fis/here"),
                  ("http://a.com/app#!/inbox", "http://a.com/app#%21/inbox"), ("http://a.com/app#!inbox", "http://a.com/app#%21inbox"),
